@@ -47,7 +47,10 @@ fn vx_bounded_c16_http() {
         let mut probes = 0usize;
         for base in data_paths {
             let spellings = [base.to_string(), format!("{}/", base), base.to_uppercase(), base.replacen("/nacos/", "/Nacos/", 1), format!("/{}", base), format!("/x{}", base),
-                             if base.starts_with("/nacos/") { base.replacen("/v1/", "//v1/", 1) } else { base.to_string() }, format!("{}%2F", base), format!("{};x=1", base)];
+                             if base.starts_with("/nacos/") { base.replacen("/v1/", "//v1/", 1) } else { base.to_string() }, format!("{}%2F", base), format!("{};x=1", base),
+                             // percent-encoded letters: actix routes on the decoded path
+                             base.replacen("/nacos/", "/%6eacos/", 1).replacen("/rnacos/", "/%72nacos/", 1), base.replacen("/v1/", "/v%31/", 1).replacen("/v2/", "/v%32/", 1),
+                             { let mut b = base.to_string(); let last = b.pop().unwrap(); format!("{}%{:02x}", b, last as u32) }];
             for path in spellings.iter() {
                 for method in ["GET", "POST", "PUT", "DELETE"] {
                     // none of these is a token issued by a login
